@@ -469,7 +469,37 @@ def paren_cases(names, nops, roots=None):
             out.append(("parens: " + v, {"o": orig, "v": E.program(arg(v)), "lab": lab, "w": _node_name(node),
                                          "path": list(path)}))
         out.append(("parens: " + _wrap_all(t), {"o": orig, "v": E.program(_wrap_all(t)), "lab": lab, "w": "every sub-expression", "path": []}))
+        # two redundant pairs at once (a sub-expression and one of its ancestors, or two unrelated ones): a group that directly
+        # follows another `(` is parsed by a different path than a lone one
+        subs = list(E.subexprs(t))
+        for i in range(len(subs)):
+            for j in range(i + 1, len(subs)):
+                (pa, na), (pb, nb) = subs[i], subs[j]
+                first, second = (pa, pb) if len(pa) >= len(pb) else (pb, pa)      # deeper one first
+                try:
+                    t1 = _wrap_tree(t, first)
+                    v = _wrap_at(t1, second)
+                except Exception:  # noqa: BLE001  (the second path ran into the pseudo-leaf of the first: not nested that way)
+                    continue
+                if v == m:
+                    continue
+                out.append(("parens: " + v, {"o": orig, "v": E.program(arg(v)), "lab": lab,
+                                             "w": _node_name(na) + " and " + _node_name(nb), "path": [list(pa), list(pb)]}))
     return out
+
+
+def _wrap_tree(t, path):
+    """the tree with the node at `path` replaced by a pseudo-leaf '(' + minimal(node) + ')'."""
+    def go(n, p):
+        if not p:
+            return ("v", "(" + E.minimal(n) + ")")
+        i = p[0]
+        if n[0] in ("call", "new") and i == 2:
+            args = list(n[2])
+            args[p[1]] = go(args[p[1]], p[2:])
+            return n[:2] + (tuple(args),)
+        return n[:i] + (go(n[i], p[1:]),) + n[i + 1:]
+    return go(t, path)
 
 
 # =============================================================================================
@@ -547,9 +577,9 @@ def number_cases():
 
 CHARS = ["a", "z", "A", "Z", "x", "u", "n", "b", "t", "v", "f", "r", "0", "9", "'", '"', "`", "\\", "\n", "\r", "\t",
          "\x00", "\x0b", "\x0c", "\x08", " ", "/", "$", "{", "}", "-", "\x7f", "\xa0", "\xe9", "\xff", "\u0100", "\u2028",
-         "\u2029", "\u4e2d", "\ufeff"]
+         "\u2029", "\u4e2d", "\ufeff", "\U0001F600", "\U00010000", "\U0010FFFF"]
 LINE_TERMINATORS = "\n\r\u2028\u2029"
-assert len(CHARS) == 40 and len(set(CHARS)) == 40
+assert len(CHARS) == 43 and len(set(CHARS)) == 43
 
 
 def _chname(ch):
@@ -746,7 +776,10 @@ def reject_literal_cases():
 PRIMARIES = [("array", "[1, 2]"), ("array-nested", "[[1], [2]]"), ("array-empty", "[]"), ("array-empty-nested", "[[]]"),
              ("array-3deep", "[[[7]]]"), ("object", "({k: 1})"), ("sequence", "(1, [2])"), ("paren2", "((3))"),
              ("function", "(function () { return [7] })"), ("string", '"ab"'), ("regex", "/b/"), ("new", "new Array(2, 3)"),
-             ("ident", "a"), ("unary-array", "-[3]"), ("typeof-array", "typeof []"), ("call", "f([1], [2])")]
+             ("ident", "a"), ("unary-array", "-[3]"), ("typeof-array", "typeof []"), ("call", "f([1], [2])"),
+             # regex literals whose text contains characters that matter to a scanner looking for the end of a group or string
+             ("regex-double-quote", '/"/'), ("regex-single-quote", "/'/"), ("regex-paren-in-class", "/[)(]/"), ("regex-escaped-paren", "/\\)/"),
+             ("regex-slash-in-class", "/[/]/"), ("regex-bracket-and-brace", "/[\\]}{]/"), ("string-with-paren", '")("'), ("string-with-slash", '"/*"')]
 CONTS = [("none", ""), ("dot", ".length"), ("index", "[0]"), ("index2", "[0][0]"), ("method", ".concat([9])"),
          ("callback", ".map(function (x) { return [x] })"), ("call", "()"), ("plus", " + 1"), ("plus-array", " + [1]"),
          ("times", " * 2"), ("conditional", " ? [1] : [2]"), ("or", " || [1]"), ("and", " && [1]"), ("in", " in {}"),
@@ -760,7 +793,8 @@ PCTX = [("plain", "r = %s;"), ("elem-only", "r = [%s];"), ("elem-last", "r = [0,
         ("if-test", "if (%s) r = 1;"), ("for-init", "for (r = %s; false;);"), ("return", "r = function () { return %s }();"),
         ("computed-key", "r = a[%s];"), ("statement", "%s;")]
 # combinations whose value depends on behaviour judged elsewhere (function source text: C16; strict-mode write to a primitive: C08)
-_PRIMARY_SKIP = {("function", "plus"), ("function", "plus-array"), ("paren2", "index-assign"), ("string", "index-assign")}
+_PRIMARY_SKIP = {("function", "plus"), ("function", "plus-array"), ("paren2", "index-assign"), ("string", "index-assign"),
+                 ("string-with-paren", "index-assign"), ("string-with-slash", "index-assign")}
 _PROLOGUE = "var a = [5, 6], r = 0; function f(x, y) { return [x, y] }\n"
 
 
